@@ -33,6 +33,11 @@ def sweep(ctx: Ctx):
         # a non-coding region must refuse codon-level mutators and accept the others
         cases.append((strand, exons, seq, 1, 3, None, [rng.choice(ALL_MUTS)], None))
         cases.append((strand, exons, seq, 1, 3, None, ['snv', '1del'], None))
+    api_cases(ctx, cases)
+
+
+def api_cases(ctx: Ctx, cases: list, what: str = 'C03 sweep', control: bool = True, chunk: int = 150):
+    """Real get_cds_seq + MutatorCollection.get_variants on each case, against the reading-frame oracle and the Coq model."""
     common.use_repo()
     results = [cc.api_region(c) for c in cases]
     exprs = []
@@ -67,17 +72,17 @@ def sweep(ctx: Ctx):
             ctx.violation('spec_violation',
                           f'region [{lo},{hi}] strand {strand} exons {exons}: missing {missing} unexpected {extra} (dups {len(g) - len(set(g))})',
                           {'surface': 'api', 'case': list(c), 'expected': e[:40], 'got': g[:40]})
-    bad, err = coq_eval(cc.IMPORTS, exprs, chunk=150)
+    bad, err = coq_eval(cc.IMPORTS, exprs, chunk=chunk)
     ctx.corr['cases'] += len(exprs)
     if err:
-        ctx.violation('correspondence', 'model evaluation failed: ' + err[:300], broken='coqc cases (C03 sweep)', no_input=True)
+        ctx.violation('correspondence', 'model evaluation failed: ' + err[:300], broken=f'coqc cases ({what})', no_input=True)
     for i in bad:
         ctx.corr['disagreements'] += 1
         ctx.violation('correspondence', f'impl != model (region_rows) for {cases[i][0]} {cases[i][1]} region {cases[i][3:5]} {cases[i][6]}',
                       {'surface': 'api', 'case': list(cases[i]), 'impl': results[i]}, broken='correspondence S-api get_cds_seq + MutatorCollection.get_variants')
     ctx.sample({'api_case': [cases[0][0], cases[0][1], cases[0][3:7]], 'impl_rows': len(results[0][1]) if results[0][0] == 'ok' else results[0]})
     # negative control: shifting one row of the implementation's answer must be rejected by the comparator
-    ctl = [e.replace('mkC "ala" ', 'mkC "ala" 1', 1) for e in exprs if 'mkC "ala" ' in e][:3]
+    ctl = [e.replace('mkC "ala" ', 'mkC "ala" 1', 1) for e in exprs if 'mkC "ala" ' in e][:3] if control else []
     if ctl:
         badc, _ = coq_eval(cc.IMPORTS, ctl)
         ctx.controls['run'] += len(ctl)
